@@ -1891,6 +1891,10 @@ static void MPSreadBounds(MPSInput& mps, LPColSetBase<R>& cset, const NameSet& c
          return;
       }
 
+      // a line that consists of a fixed-format '$' comment only has no fields at all
+      if(mps.field1() == nullptr)
+         break;
+
       // Is the value field used ?
       if((!strcmp(mps.field1(), "LO"))
             || (!strcmp(mps.field1(), "UP"))
